@@ -871,3 +871,258 @@ Proof.
     + constructor.
     + apply (hi_chnodup _ _ Hinv _ _ Hold).
 Qed.
+
+(* ---- the node map after the Rename of a file ---------------------------------------------------- *)
+Lemma Gmove_cases idx old new cs :
+  (exists r, cs = new ++ r /\ Gmove idx old new cs = Fi idx (old ++ r))
+  \/ ((forall r, cs <> new ++ r) /\ (exists r, cs = old ++ r) /\ Gmove idx old new cs = None)
+  \/ ((forall r, cs <> new ++ r) /\ (forall r, cs <> old ++ r) /\ Gmove idx old new cs = Fi idx cs).
+Proof.
+  unfold Gmove. destruct (strip new cs) as [r|] eqn:E1.
+  - left. exists r. split; [apply strip_some; exact E1|reflexivity].
+  - right. destruct (strip old cs) as [r|] eqn:E2.
+    + left. split; [apply strip_none; exact E1|]. split; [exists r; apply strip_some; exact E2|reflexivity].
+    + right. split; [apply strip_none; exact E1|]. split; [apply strip_none; exact E2|reflexivity].
+Qed.
+
+Lemma move_spec_file idx h old new oc nc :
+  hinv idx h -> gcs old -> gcs new -> old <> [] -> new <> [] ->
+  Fi idx old = Some oc -> Fi idx new = nc -> old <> new ->
+  (forall c r, gcs (c :: r) -> Fi idx (old ++ c :: r) = None) ->
+  (forall c r, gcs (c :: r) -> Fi idx (new ++ c :: r) = None) ->
+  move_spec idx (aremove str_eqb (rpath old) (aset str_eqb (rpath new) oc idx)) old new nc.
+Proof.
+  intros Hinv Hgo Hgn Hone Hnne HFo HFn Hon Hbo Hbn.
+  assert (HKon : rpath old <> rpath new).
+  { intros E. apply Hon. apply rpath_inj; [apply gcs_ok; exact Hgo|apply gcs_ok; exact Hgn|exact E]. }
+  assert (HoK : rpath old <> [] /\ rpath old <> [SLASH]).
+  { split; [intros E; apply rpath_nil_inv in E; congruence|apply rpath_not_slash; apply gcs_ok; exact Hgo]. }
+  assert (HnK : rpath new <> [] /\ rpath new <> [SLASH]).
+  { split; [intros E; apply rpath_nil_inv in E; congruence|apply rpath_not_slash; apply gcs_ok; exact Hgn]. }
+  constructor.
+  - apply nodup_aremove. apply nodup_aset. apply (hi_nodup _ _ Hinv).
+  - intros k i Hk. unfold ikey in Hk. destruct (str_eqb_spec k (rpath old)) as [->|Hko].
+    + rewrite al_aremove_eq in Hk. discriminate.
+    + rewrite al_aremove_neq in Hk by exact Hko. destruct (str_eqb_spec k (rpath new)) as [->|Hkn].
+      * right. exists new. auto.
+      * rewrite al_aset_neq in Hk by exact Hkn. apply (hi_keys _ _ Hinv _ _ Hk).
+  - unfold ikey. destruct HoK, HnK. rewrite !al_aremove_neq by congruence. rewrite !al_aset_neq by congruence.
+    apply (hi_root _ _ Hinv).
+  - intros cs Hcs.
+    destruct (Gmove_cases idx old new cs) as [(r & -> & ->)|[(Hn1 & (r & ->) & ->)|(Hn1 & Hn2 & ->)]].
+    + destruct r as [|c r].
+      * rewrite !app_nil_r. rewrite Fi_aremove_neq by (try assumption; congruence). rewrite Fi_aset_eq. congruence.
+      * assert (Hcr : gcs (c :: r)) by (apply Forall_app in Hcs; apply Hcs).
+        rewrite (Hbo c r Hcr).
+        assert (Hne1 : new ++ c :: r <> old).
+        { intros E. rewrite <- E in HFo. rewrite (Hbn c r Hcr) in HFo. discriminate. }
+        assert (Hne2 : new ++ c :: r <> new).
+        { intros E. apply (f_equal (@length str)) in E. rewrite app_length in E. cbn in E. lia. }
+        rewrite Fi_aremove_neq by assumption. rewrite Fi_aset_neq by assumption. apply (Hbn c r Hcr).
+    + destruct r as [|c r].
+      * rewrite app_nil_r. apply Fi_aremove_eq.
+      * assert (Hcr : gcs (c :: r)) by (apply Forall_app in Hcs; apply Hcs).
+        assert (Hne1 : old ++ c :: r <> old).
+        { intros E. apply (f_equal (@length str)) in E. rewrite app_length in E. cbn in E. lia. }
+        assert (Hne2 : old ++ c :: r <> new) by (intros E; apply (Hn1 []); rewrite app_nil_r; exact E).
+        rewrite Fi_aremove_neq by assumption. rewrite Fi_aset_neq by assumption. apply (Hbo c r Hcr).
+    + assert (Hne1 : cs <> old) by (intros E; apply (Hn2 []); rewrite app_nil_r; exact E).
+      assert (Hne2 : cs <> new) by (intros E; apply (Hn1 []); rewrite app_nil_r; exact E).
+      rewrite Fi_aremove_neq by assumption. rewrite Fi_aset_neq by assumption. reflexivity.
+  - intros k i Hk. unfold ikey in Hk. destruct (str_eqb_spec k (rpath old)) as [->|Hko].
+    + rewrite al_aremove_eq in Hk. discriminate.
+    + rewrite al_aremove_neq in Hk by exact Hko. destruct (str_eqb_spec k (rpath new)) as [->|Hkn].
+      * rewrite al_aset_eq in Hk. inversion Hk; subst. exists (rpath old). exact HFo.
+      * rewrite al_aset_neq in Hk by exact Hkn. exists k. exact Hk.
+  - intros i.
+    assert (Hlo : alookup str_eqb (rpath old) (aset str_eqb (rpath new) oc idx) = Some oc).
+    { rewrite al_aset_neq by exact HKon. exact HFo. }
+    pose proof (kcount_aremove nat (fun v => Nat.eqb v i) _ _ _ (nodup_aset nat (rpath new) oc idx (hi_nodup _ _ Hinv)) Hlo) as H1.
+    cbv beta in H1. unfold kcount. destruct nc as [j|].
+    + pose proof (kcount_aset_old nat (fun v => Nat.eqb v i) (rpath new) oc j idx HFn) as H2. cbv beta in H2.
+      destruct (Nat.eqb j i), (Nat.eqb oc i); lia.
+    + pose proof (kcount_aset_new nat (fun v => Nat.eqb v i) (rpath new) oc idx HFn) as H2. cbv beta in H2.
+      destruct (Nat.eqb oc i); lia.
+Qed.
+
+(* ---- the node map after the Rename of a directory (keys below it re-keyed) ------------------------- *)
+Lemma move_spec_dir idx h old new oc :
+  hinv idx h -> gcs old -> gcs new -> old <> [] -> new <> [] ->
+  Fi idx old = Some oc -> Fi idx new = None -> (forall r, new <> old ++ r) ->
+  move_spec idx (o_rekey Linux (rpath old) (rpath new) (aremove str_eqb (rpath old) (aset str_eqb (rpath new) oc idx)))
+            old new None.
+Proof.
+  intros Hinv Hgo Hgn Hone Hnne HFo HFn Hnb.
+  set (idx1 := aremove str_eqb (rpath old) (aset str_eqb (rpath new) oc idx)).
+  set (g := rekey_fn (rpath old) (rpath new)).
+  rewrite o_rekey_mapk. fold g.
+  assert (Hoko : Forall comp_ok old) by (apply gcs_ok; exact Hgo).
+  assert (Hokn : Forall comp_ok new) by (apply gcs_ok; exact Hgn).
+  assert (Hon : old <> new) by (intros E; apply (Hnb []); rewrite app_nil_r; auto).
+  assert (Hob : forall r, old <> new ++ r).
+  { intros r E. destruct r as [|c r]; [rewrite app_nil_r in E; congruence|].
+    assert (Hcr : gcs (c :: r)). { rewrite E in Hgo. apply Forall_app in Hgo. apply Hgo. }
+    rewrite E in HFo. rewrite (Fi_below_none idx h new c r Hinv Hgn Hcr HFn) in HFo. discriminate. }
+  assert (Hbn : forall c r, gcs (c :: r) -> Fi idx (new ++ c :: r) = None).
+  { intros c r Hcr. apply (Fi_below_none idx h new c r Hinv Hgn Hcr HFn). }
+  (* the intermediate map *)
+  assert (HF1 : forall cs, gcs cs -> Fi idx1 cs = if cs_eq_dec cs old then None else if cs_eq_dec cs new then Some oc else Fi idx cs).
+  { intros cs Hcs. unfold idx1. destruct (cs_eq_dec cs old) as [->|H1]; [apply Fi_aremove_eq|].
+    rewrite Fi_aremove_neq by assumption. destruct (cs_eq_dec cs new) as [->|H2]; [apply Fi_aset_eq|].
+    apply Fi_aset_neq; assumption. }
+  assert (Hnd1 : NoDup (map fst idx1)).
+  { unfold idx1. apply nodup_aremove. apply nodup_aset. apply (hi_nodup _ _ Hinv). }
+  assert (Hshape : forall k i, ikey idx1 k = Some i -> (k = [SLASH] /\ i = 0) \/ exists cs, gcs cs /\ k = rpath cs).
+  { intros k i Hk. unfold idx1, ikey in Hk. destruct (str_eqb_spec k (rpath old)) as [->|Hko].
+    - rewrite al_aremove_eq in Hk. discriminate.
+    - rewrite al_aremove_neq in Hk by exact Hko. destruct (str_eqb_spec k (rpath new)) as [->|Hkn].
+      + right. exists new. auto.
+      + rewrite al_aset_neq in Hk by exact Hkn. apply (hi_keys _ _ Hinv _ _ Hk). }
+  (* the key function on components *)
+  assert (Hg : forall cs, gcs cs ->
+            (exists c r, cs = old ++ c :: r /\ g (rpath cs) = rpath (new ++ c :: r))
+            \/ ((forall c r, cs <> old ++ c :: r) /\ g (rpath cs) = rpath cs)).
+  { intros cs Hcs. destruct (strip old cs) as [[|c r]|] eqn:E.
+    - apply strip_some in E. rewrite app_nil_r in E. subst cs. right.
+      assert (Hn : forall c r, old <> old ++ c :: r).
+      { intros c r E. apply (f_equal (@length str)) in E. rewrite app_length in E. cbn in E. lia. }
+      split; [exact Hn|]. apply rekey_fn_other; assumption.
+    - apply strip_some in E. subst cs. left. exists c, r. split; [reflexivity|].
+      apply rekey_fn_below; [exact Hoko|]. apply gcs_ok. apply Forall_app in Hcs. apply Hcs.
+    - right. assert (Hn : forall c r, cs <> old ++ c :: r) by (intros c r; apply (proj1 (strip_none old cs) E)).
+      split; [exact Hn|]. apply rekey_fn_other; [exact Hoko|apply gcs_ok; exact Hcs|exact Hn]. }
+  assert (Hgs : g [SLASH] = [SLASH]) by (apply rekey_fn_slash; assumption).
+  (* a key of the intermediate map, re-keyed, is a path; below the new name only from below the old one *)
+  assert (Hkey1 : forall k, In k (map fst idx1) ->
+            k = [SLASH] \/ exists cs, gcs cs /\ k = rpath cs /\ Fi idx1 cs <> None).
+  { intros k Hk. apply in_keys_al in Hk. destruct (alookup str_eqb k idx1) as [i|] eqn:E; [|congruence].
+    destruct (Hshape k i E) as [[-> _]|(cs & Hcs & ->)]; [left; reflexivity|].
+    right. exists cs. repeat split; auto. unfold Fi, ikey. congruence. }
+  assert (Hinj : forall k1 k2, In k1 (map fst idx1) -> In k2 (map fst idx1) -> g k1 = g k2 -> k1 = k2).
+  { assert (Hhalf : forall cs1 cs2 c r, gcs cs1 -> gcs cs2 -> cs1 = old ++ c :: r ->
+                     (forall c' r', cs2 <> old ++ c' :: r') -> Fi idx1 cs2 <> None -> rpath (new ++ c :: r) <> rpath cs2).
+    { intros cs1 cs2 c r H1 H2 E1 Hn2 HF2 E. apply HF2.
+      assert (Hcr : gcs (c :: r)). { rewrite E1 in H1. apply Forall_app in H1. apply H1. }
+      assert (E2 : cs2 = new ++ c :: r).
+      { symmetry. apply rpath_inj; [apply gcs_ok; apply gcs_app; assumption|apply gcs_ok; exact H2|exact E]. }
+      rewrite (HF1 cs2 H2). destruct (cs_eq_dec cs2 old) as [_|_]; [reflexivity|].
+      destruct (cs_eq_dec cs2 new) as [E3|_].
+      - exfalso. rewrite E2 in E3. apply (f_equal (@length str)) in E3. rewrite app_length in E3. cbn in E3. lia.
+      - rewrite E2. apply Hbn. exact Hcr. }
+    intros k1 k2 Hk1 Hk2 E.
+    destruct (Hkey1 k1 Hk1) as [->|(cs1 & Hc1 & -> & HF1')]; destruct (Hkey1 k2 Hk2) as [->|(cs2 & Hc2 & -> & HF2')].
+    - reflexivity.
+    - exfalso. rewrite Hgs in E. destruct (Hg cs2 Hc2) as [(c & r & E2 & Eg)|(_ & Eg)]; rewrite Eg in E; symmetry in E.
+      + revert E. apply rpath_not_slash. apply gcs_ok. apply gcs_app; [exact Hgn|]. rewrite E2 in Hc2. apply Forall_app in Hc2. apply Hc2.
+      + revert E. apply rpath_not_slash. apply gcs_ok. exact Hc2.
+    - exfalso. rewrite Hgs in E. destruct (Hg cs1 Hc1) as [(c & r & E1 & Eg)|(_ & Eg)]; rewrite Eg in E.
+      + revert E. apply rpath_not_slash. apply gcs_ok. apply gcs_app; [exact Hgn|]. rewrite E1 in Hc1. apply Forall_app in Hc1. apply Hc1.
+      + revert E. apply rpath_not_slash. apply gcs_ok. exact Hc1.
+    - destruct (Hg cs1 Hc1) as [(c1 & r1 & E1 & Eg1)|(Hn1 & Eg1)]; destruct (Hg cs2 Hc2) as [(c2 & r2 & E2 & Eg2)|(Hn2 & Eg2)];
+        rewrite Eg1, Eg2 in E.
+      + assert (Hcr1 : gcs (c1 :: r1)). { rewrite E1 in Hc1. apply Forall_app in Hc1. apply Hc1. }
+        assert (Hcr2 : gcs (c2 :: r2)). { rewrite E2 in Hc2. apply Forall_app in Hc2. apply Hc2. }
+        apply rpath_inj in E; [|apply gcs_ok; apply gcs_app; assumption|apply gcs_ok; apply gcs_app; assumption].
+        apply app_inv_head in E. rewrite E1, E2, E. reflexivity.
+      + exfalso. exact (Hhalf cs1 cs2 c1 r1 Hc1 Hc2 E1 Hn2 HF2' E).
+      + exfalso. symmetry in E. exact (Hhalf cs2 cs1 c2 r2 Hc2 Hc1 E2 Hn1 HF1' E).
+      + exact E. }
+  (* look-ups after re-keying *)
+  assert (Hlk_in : forall cs, gcs cs -> Fi idx1 cs <> None ->
+             alookup str_eqb (g (rpath cs)) (mapk nat g idx1) = Fi idx1 cs).
+  { intros cs Hcs HF. apply (al_mapk_in nat g idx1 (rpath cs) Hnd1 Hinj). apply in_keys_al. exact HF. }
+  constructor.
+  - apply nodup_mapk; assumption.
+  - intros k i Hk. apply al_mapk_some in Hk. destruct Hk as (k0 & Hk0 & Hin).
+    assert (Hk1 : ikey idx1 k0 = Some i) by (apply in_al; assumption).
+    destruct (Hshape k0 i Hk1) as [[-> ->]|(cs & Hcs & ->)].
+    + left. rewrite Hgs in Hk0. auto.
+    + right. destruct (Hg cs Hcs) as [(c & r & E1 & Eg)|(_ & Eg)]; rewrite Eg in Hk0; subst k.
+      * exists (new ++ c :: r). split; [|reflexivity]. apply gcs_app; [exact Hgn|]. rewrite E1 in Hcs. apply Forall_app in Hcs. apply Hcs.
+      * exists cs. auto.
+  - assert (Hr1 : ikey idx1 [] = Some 0 /\ ikey idx1 [SLASH] = Some 0).
+    { unfold idx1, ikey.
+      assert (rpath old <> [] /\ rpath old <> [SLASH]) as [? ?]
+        by (split; [intros E; apply rpath_nil_inv in E; congruence|apply rpath_not_slash; exact Hoko]).
+      assert (rpath new <> [] /\ rpath new <> [SLASH]) as [? ?]
+        by (split; [intros E; apply rpath_nil_inv in E; congruence|apply rpath_not_slash; exact Hokn]).
+      rewrite !al_aremove_neq by congruence. rewrite !al_aset_neq by congruence. apply (hi_root _ _ Hinv). }
+    destruct Hr1 as [Hr1 Hr2]. split.
+    + assert (E : g (rpath []) = rpath []).
+      { destruct (Hg [] (Forall_nil _)) as [(c & r & E1 & _)|(_ & Eg)]; [destruct old; discriminate|exact Eg]. }
+      unfold ikey. change (@nil N) with (rpath []). rewrite <- E.
+      rewrite (Hlk_in [] (Forall_nil _)); unfold Fi; cbn [rpath]; congruence.
+    + unfold ikey. rewrite <- Hgs. rewrite (al_mapk_in nat g idx1 [SLASH] Hnd1 Hinj); [exact Hr2|].
+      apply in_keys_al. unfold ikey in Hr2. congruence.
+  - intros cs Hcs. unfold Fi at 1. unfold ikey.
+    destruct (Gmove_cases idx old new cs) as [(r & -> & ->)|[(Hn1 & (r & ->) & ->)|(Hn1 & Hn2 & ->)]].
+    + destruct r as [|c r].
+      * rewrite !app_nil_r. rewrite HFo.
+        assert (Eg : g (rpath new) = rpath new).
+        { destruct (Hg new Hgn) as [(c & r & E1 & _)|(_ & Eg)]; [exfalso; exact (Hnb _ E1)|exact Eg]. }
+        rewrite <- Eg. rewrite (Hlk_in new Hgn); rewrite (HF1 new Hgn);
+          destruct (cs_eq_dec new old); try congruence; destruct (cs_eq_dec new new); congruence.
+      * assert (Hcr : gcs (c :: r)) by (apply Forall_app in Hcs; apply Hcs).
+        assert (Hgoc : gcs (old ++ c :: r)) by (apply gcs_app; assumption).
+        assert (Eg : g (rpath (old ++ c :: r)) = rpath (new ++ c :: r)).
+        { apply rekey_fn_below; [exact Hoko|apply gcs_ok; exact Hcr]. }
+        assert (E1 : Fi idx1 (old ++ c :: r) = Fi idx (old ++ c :: r)).
+        { rewrite (HF1 _ Hgoc). destruct (cs_eq_dec (old ++ c :: r) old) as [E|_].
+          - apply (f_equal (@length str)) in E. rewrite app_length in E. cbn in E. lia.
+          - destruct (cs_eq_dec (old ++ c :: r) new) as [E|_]; [exfalso; exact (Hnb _ (eq_sym E))|reflexivity]. }
+        destruct (Fi idx (old ++ c :: r)) as [i|] eqn:EF.
+        -- rewrite <- Eg. rewrite (Hlk_in _ Hgoc); congruence.
+        -- apply al_mapk_notin. intros k Hk Ek.
+           destruct (Hkey1 k Hk) as [->|(cs2 & Hc2 & -> & HF2)].
+           ++ rewrite Hgs in Ek. symmetry in Ek. revert Ek. apply rpath_not_slash. apply gcs_ok. exact Hcs.
+           ++ destruct (Hg cs2 Hc2) as [(c2 & r2 & E2 & Eg2)|(_ & Eg2)]; rewrite Eg2 in Ek.
+              ** assert (Hcr2 : gcs (c2 :: r2)). { rewrite E2 in Hc2. apply Forall_app in Hc2. apply Hc2. }
+                 apply rpath_inj in Ek; [|apply gcs_ok; apply gcs_app; assumption|apply gcs_ok; exact Hcs].
+                 apply app_inv_head in Ek. apply HF2. rewrite E2, Ek. congruence.
+              ** apply rpath_inj in Ek; [|apply gcs_ok; exact Hc2|apply gcs_ok; exact Hcs]. subst cs2.
+                 apply HF2. rewrite (HF1 _ Hcs). destruct (cs_eq_dec (new ++ c :: r) old); [reflexivity|].
+                 destruct (cs_eq_dec (new ++ c :: r) new) as [E|_].
+                 { apply (f_equal (@length str)) in E. rewrite app_length in E. cbn in E. lia. }
+                 apply Hbn. exact Hcr.
+    + apply al_mapk_notin. intros k Hk Ek.
+      destruct (Hkey1 k Hk) as [->|(cs2 & Hc2 & -> & HF2)].
+      * rewrite Hgs in Ek. symmetry in Ek. revert Ek. apply rpath_not_slash. apply gcs_ok. exact Hcs.
+      * destruct (Hg cs2 Hc2) as [(c2 & r2 & E2 & Eg2)|(Hn2 & Eg2)]; rewrite Eg2 in Ek.
+        -- assert (Hcr2 : gcs (c2 :: r2)). { rewrite E2 in Hc2. apply Forall_app in Hc2. apply Hc2. }
+           apply rpath_inj in Ek; [|apply gcs_ok; apply gcs_app; assumption|apply gcs_ok; exact Hcs].
+           exact (Hn1 _ (eq_sym Ek)).
+        -- apply rpath_inj in Ek; [|apply gcs_ok; exact Hc2|apply gcs_ok; exact Hcs]. subst cs2.
+           destruct r as [|c r]; [|exact (Hn2 c r eq_refl)].
+           rewrite app_nil_r in HF2. apply HF2. rewrite (HF1 old Hgo). destruct (cs_eq_dec old old); congruence.
+    + assert (Eg : g (rpath cs) = rpath cs).
+      { destruct (Hg cs Hcs) as [(c & r & E1 & _)|(_ & Eg)]; [exfalso; exact (Hn2 _ E1)|exact Eg]. }
+      assert (E1 : Fi idx1 cs = Fi idx cs).
+      { rewrite (HF1 cs Hcs). destruct (cs_eq_dec cs old) as [E|_]; [exfalso; apply (Hn2 []); rewrite app_nil_r; exact E|].
+        destruct (cs_eq_dec cs new) as [E|_]; [exfalso; apply (Hn1 []); rewrite app_nil_r; exact E|reflexivity]. }
+      destruct (Fi idx cs) as [i|] eqn:EF.
+      * rewrite <- Eg. rewrite (Hlk_in cs Hcs); congruence.
+      * apply al_mapk_notin. intros k Hk Ek.
+        destruct (Hkey1 k Hk) as [->|(cs2 & Hc2 & -> & HF2)].
+        -- rewrite Hgs in Ek. symmetry in Ek. revert Ek. apply rpath_not_slash. apply gcs_ok. exact Hcs.
+        -- destruct (Hg cs2 Hc2) as [(c2 & r2 & E2 & Eg2)|(_ & Eg2)]; rewrite Eg2 in Ek.
+           ++ assert (Hcr2 : gcs (c2 :: r2)). { rewrite E2 in Hc2. apply Forall_app in Hc2. apply Hc2. }
+              apply rpath_inj in Ek; [|apply gcs_ok; apply gcs_app; assumption|apply gcs_ok; exact Hcs].
+              exact (Hn1 _ (eq_sym Ek)).
+           ++ apply rpath_inj in Ek; [|apply gcs_ok; exact Hc2|apply gcs_ok; exact Hcs]. subst cs2. congruence.
+  - intros k i Hk. apply al_mapk_some in Hk. destruct Hk as (k0 & _ & Hin).
+    assert (Hk1 : ikey idx1 k0 = Some i) by (apply in_al; assumption).
+    unfold idx1, ikey in Hk1. destruct (str_eqb_spec k0 (rpath old)) as [->|Hko].
+    + rewrite al_aremove_eq in Hk1. discriminate.
+    + rewrite al_aremove_neq in Hk1 by exact Hko. destruct (str_eqb_spec k0 (rpath new)) as [->|Hkn].
+      * rewrite al_aset_eq in Hk1. inversion Hk1; subst. exists (rpath old). exact HFo.
+      * rewrite al_aset_neq in Hk1 by exact Hkn. exists k0. exact Hk1.
+  - intros i. unfold kcount. rewrite kcount_mapk. rewrite Nat.add_0_r.
+    assert (HKon : rpath old <> rpath new).
+    { intros E. apply Hon. apply rpath_inj; [exact Hoko|exact Hokn|exact E]. }
+    assert (Hlo : alookup str_eqb (rpath old) (aset str_eqb (rpath new) oc idx) = Some oc).
+    { rewrite al_aset_neq by exact HKon. exact HFo. }
+    pose proof (kcount_aremove nat (fun v => Nat.eqb v i) _ _ _ (nodup_aset nat (rpath new) oc idx (hi_nodup _ _ Hinv)) Hlo) as H1.
+    cbv beta in H1.
+    pose proof (kcount_aset_new nat (fun v => Nat.eqb v i) (rpath new) oc idx HFn) as H2. cbv beta in H2.
+    fold idx1 in H1. destruct (Nat.eqb oc i); lia.
+Qed.
